@@ -22,15 +22,17 @@ func defGenMethod(args slip.List, p *slip.Printer) Node {
 	dm.name = &Leaf{text: sym.Readably(nil, p)}
 	args = args[1:]
 
-	if sym, _ = args[0].(slip.Symbol); 0 < len(sym) {
+	if sym, _ = args[0].(slip.Symbol); 0 < len(sym) && 1 < len(args) {
 		dm.qual = &Leaf{text: sym.Readably(nil, p)}
 		args = args[1:]
 	}
 	dm.sll = argsFromList(args[0], p)
 	args = args[1:]
-	if ss, ok := args[0].(slip.String); ok {
-		dm.doc = &Doc{text: string(ss), nl: true}
-		args = args[1:]
+	if 0 < len(args) {
+		if ss, ok := args[0].(slip.String); ok {
+			dm.doc = &Doc{text: string(ss), nl: true}
+			args = args[1:]
+		}
 	}
 	for _, v := range args {
 		dm.children = append(dm.children, buildNode(v, p))
